@@ -55,4 +55,53 @@ CHECKS.update({
     },
 })
 
+_SET_NOTE = ("Trusted: Coq 8.16.1 kernel + vm_compute; hand-written model coq/theories/ObjectSet.v (GenericObjectSetController.Reconcile: "
+             "finalizer, revision, phase loop, status derivation, deletion/archival) on top of Phase.v/Api.v, tied to the code by running the real "
+             "objectsets.New(Cluster)ObjectSetController(...).Reconcile against the recording API server and comparing request by request and the "
+             "post state of members and ObjectSets inside Coq; scenario printers; Python driver. Pass-level atomicity, fresh cache; condition messages "
+             "and timestamps are not compared; slices and delegated phases are covered by C14/C15.")
+
+CHECKS.update({
+    "C03": {
+        "technique": "Coq theorems over one Reconcile pass of the ObjectSet controller for arbitrary worlds and specs (gating, first-failure, completeness by induction over the phase list with frame lemmas); differential correspondence of the real controller; monitor on the implementation's request order vs post-pass object states",
+        "text": "props/C03.v proves for every world and every ObjectSet that a request naming an object of phase j implies all objects of all earlier phases are present and pass the probe in the states the pass obtained, that the phase named as failing is the first incomplete one and nothing after it is touched. The real controller is run on generated worlds (all member/ownership/status states, lifecycle states) and judged in Coq.",
+        "note": _SET_NOTE,
+    },
+    "C04": {
+        "technique": "Coq theorems: teardown loop order and finalizer/Archived gating for arbitrary worlds (induction over the reversed phase list), full inversion of the deletion pass; differential correspondence of the real controller on deleting/archived ObjectSets with finalizer-delayed deletions",
+        "text": "props/C04.v proves that a teardown request names an object of a phase only if all objects of all later phases are absent or no longer controlled (or excluded by the teardown preflight, an explicit disjunct), and that the finalizer is removed / Archived=True reported only after every phase reported done; otherwise the finalizer stays and Archived=False is reported. Restart-safety follows from the pass being a function of the store alone (checked by fresh controller instances per pass).",
+        "note": _SET_NOTE + " Orphan deletion is the C05 clause (C05_orphan_deletes_nothing).",
+    },
+    "C06": {
+        "technique": "Coq theorems on the status derivation and on whole passes (Available=True justified and controllerOf sound+complete; Succeeded rule; InTransition rule; archival clauses) plus an invariant 'Succeeded never withdrawn' over every pass; monitor on every status request of the real controller",
+        "text": "props/C06.v proves each clause of the property for all worlds; Succeeded stability is an invariant preserved by every Reconcile (all branches incl. finalizer handling, conflicts, deletion, archival). Every status update request of the real controller is compared with the member states of the same pass.",
+        "note": _SET_NOTE,
+    },
+    "C09": {
+        "technique": "Coq theorems: a paused owner issues no member write (phase level for all five controller flavours with arbitrary third parties; controller level for ObjectSets) yet reports what the cache holds; differential runs of the real PhaseReconciler and ObjectSet controller with paused owners",
+        "text": "props/C09.v proves hands-off for paused ObjectSets and paused phase owners over all worlds and phases, and that the per-object result while paused is exactly the cache content (so probing continues). ObjectDeployment/Package pause propagation is decided at the deployment level (C07/C08 model).",
+        "note": _SET_NOTE,
+    },
+    "C11": {
+        "technique": "Coq theorems: preflight gate (any violation anywhere => no write), duplicate gate, namespace bound for rollout and teardown for arbitrary worlds and third parties; exhaustive violation-kind x position x flavour x scope table through the real PhaseReconciler plus controller-level runs",
+        "text": "props/C11.v proves that nothing is written unless every object of the phase passed preflight, that an ObjectSet listing the same object twice (after the namespace default) writes nothing, and that namespaced ObjectSets / same-cluster ObjectSetPhases never write, delete or release outside their namespace or on cluster-scoped kinds. A duplicate-detection defect (a2bc3f3) and a scope-check defect (aa47ee3) were found and fixed.",
+        "note": _SET_NOTE + " Dry-run verdicts are scripted by the recording server (rejects marked objects, cluster-scoped kinds with a namespace, namespaced kinds without one).",
+    },
+    "C16": {
+        "technique": "Coq theorems over an executable model of one Package controller pass (pipeline of stages with oracle outcomes, every API request can fail before/after its effect; history invariant by induction) + differential correspondence of the real GenericPackageController/PackageDeployer request by request, monitor proved sound",
+        "text": "Stage-failure => no ObjectDeployment write, persisted conditions, hash short cut, template = render and the history invariant are proved for all oracle outcomes, stored states and histories (props/C16.v). The constraints clause was refuted for the code before fix cb58cda (witness kept) and is proved for the repaired Deploy. The real controller runs on generated packages, environments, edit sequences, pull failures and per-request API faults.",
+        "note": "Trusted: Coq kernel + vm_compute, Go harness (scripted puller, recording server, template identity = sha256 of canonical JSON vs a reference render), Python generator whose intended stage outcomes are the oracle. Assumed: spec hash collision free; packages small enough for no ObjectSlices; Package never deleted.",
+    },
+    "C18": {
+        "technique": "Coq theorems over an executable model of one ObjectTemplate controller pass (arbitrary render functions, kind tables, pre-states, lifted to all histories) + step-by-step differential correspondence of the real ObjectTemplate controllers (recording API server, real dynamiccache.Cache with scripted informers, real EnqueueWatchingObjects), monitor proved sound",
+        "text": "Every clause is proved per pass for arbitrary pre-states and every history (props/C18.v): writes equal the render of the values read in that pass; required-missing / unparsable / out-of-namespace leave the target unwritten with Invalid; optional-missing requeues; deletion frees then removes the finalizer; successful passes leave the template watching every source kind. The namespace clause was refuted for the code before fix aa47ee3.",
+        "note": "Trusted: Coq kernel + vm_compute; harness (abstraction functions, Store + namespace wrapper, scripted informer); Python driver. Pass-granular interleavings; cache in sync (C12); event delivery and queue->Reconcile are runtime.",
+    },
+    "C19": {
+        "technique": "PARTIAL: panic-site inventory regenerated from the source by a go/types translator and checked complete against a Coq table (finite-domain proof by vm_compute); Coq models Ok|Err|Panic of the stages that are PKO's own logic with total/refuted/partial theorems; structure-aware and byte-level fuzzing of the real code under recover",
+        "text": "Every potential panic site of the anchored packages is accounted for in coq/theories/NoPanic.v on every run (a new unchecked assertion/index breaks the check); the modelled stages are proved panic-free after fixes 6890742, e1805ac, a818a7e, 35e301a (refutations of the old shapes kept). ~5k (quick) / ~200k (thorough) inputs go through the real pipeline, probing, condition mapping, ObjectTemplate handling and OCI import.",
+        "note": "PARTIAL by nature: panics inside yaml, text/template, sprig, cel-go, go-containerregistry, apimachinery, nil-map writes, stack exhaustion are fuzzed only. The guard flag of the inventory is a syntactic heuristic. One finding stays open (boxcutter annotation owner strategy panics on a non-JSON owners annotation; third-party module).",
+    },
+})
+
 NOT_APPLICABLE = {}
